@@ -1,6 +1,7 @@
 import PyxModel.Sexp
 import PyxModel.Extract.Wire
 import PyxModel.Extract.ToSql
+import PyxModel.Extract.Rows
 
 /-! driver commands of property C14
 
@@ -11,6 +12,12 @@ import PyxModel.Extract.ToSql
                                                         | (error MetaModelException | AttributeError)   buildOutcome d
                                                         | (ok-error <extract d> MetaModelException)
                                                                                 buildOutcome (applyEdits es d)
+    (c14-session <diagram> ((<name|none> <T|F> (<edit>…))…))
+                                                      -> ((ok <schema>) | (error …) …)   one answer per step: the build of
+                                                         component <name> from `applyEdits es d` (a build depends on the
+                                                         population it is given and on nothing that happened before)
+    (c14-rows <diagram> <name|none> <T|F>)            -> (ok <schema>) | (error MetaModelException | AttributeError |
+                                                          TypeError | OoaOfOoaException)      buildAll d
 -/
 namespace Pyx.Driver.C14
 open Pyx Pyx.Sexp Pyx.Extract Pyx.Extract.Wire
@@ -38,6 +45,38 @@ def handle : List Sexp → Option Sexp
           | .ok s0, .ok s1 => list [sym "ok", eSchema s0, eSchema s1, eSchema (schemaEdits (resolveAll d comp v es) s0)]
         | none => list [sym "error", sym "OoaOfOoaException"]
       | _, _, _, _ => bad)
+  | [sym "c14-session", d, steps] =>
+    some (match dDiagram d, steps with
+      | some d, list steps =>
+        list (steps.map (fun st =>
+          match st with
+          | list [n, v, es] =>
+            match dName n, dBool v, dList dEdit es with
+            | some n, some v, some es =>
+              let d' := applyEdits es d
+              match selectComp d'.containers n with
+              | some comp =>
+                match buildOutcome d' comp v with
+                | .ok s => list [sym "ok", eSchema s]
+                | .metaModelException => list [sym "error", sym "MetaModelException"]
+                | .attributeError => list [sym "error", sym "AttributeError"]
+              | none => list [sym "error", sym "OoaOfOoaException"]
+            | _, _, _ => bad
+          | _ => bad))
+      | _, _ => bad)
+  | [sym "c14-rows", d, n, v] =>
+    -- `mk_component` over the relationships of the diagram AND the relationships given row by row
+    some (match dDiagram d, dName n, dBool v with
+      | some d, some n, some v =>
+        match selectComp d.containers n with
+        | some comp =>
+          match buildAll d comp v with
+          | .ok s => list [sym "ok", eSchema s]
+          | .metaModelException => list [sym "error", sym "MetaModelException"]
+          | .attributeError => list [sym "error", sym "AttributeError"]
+          | .typeError => list [sym "error", sym "TypeError"]
+        | none => list [sym "error", sym "OoaOfOoaException"]
+      | _, _, _ => bad)
   | [sym "c14-sql", d, n, v] =>
     -- the text `gen_sql_schema.main` writes: `persist_database` of the built component (ASCII names)
     some (match dDiagram d, dName n, dBool v with
